@@ -592,6 +592,16 @@ pub fn c04(ctx: &mut Ctx) {
     ctx.rep.count("cases.family", n);
     // long records
     let mut sh = ctx.shard;
+    for (i, &len) in crate::iters::THRESHOLD_LENGTHS.iter().enumerate() {
+        let s = crate::iters::long_input(len, 80 + i as u64);
+        for k in [1usize, 2, 3, 4] {
+            if sh.mine() && !ctx.monitor() {
+                c04_one(ctx, &sets[k - 1], "threshold-length", &s, false);
+                ctx.rep.nontrivial += 1;
+                ctx.rep.count("cases.long_records", 1);
+            }
+        }
+    }
     for (len, seed) in [(4097usize, 1u64), (8193, 2), (20_000, 3), (70_000, 4)] {
         let s = crate::iters::long_input(len, seed);
         for k in 1..=8usize {
@@ -991,6 +1001,36 @@ pub fn c11(ctx: &mut Ctx) {
             c11_long(ctx, c, *sz, &sq);
         }
     }
+    // long records with ONE foreign byte (first, second, middle, last position): refused whatever their length
+    {
+        let mut nrej = 0u64;
+        for (i, &len) in crate::iters::THRESHOLD_LENGTHS.iter().enumerate() {
+            if len > 100_001 {
+                continue;
+            }
+            let clean: Vec<u8> = crate::iters::long_input(len, 300 + i as u64).iter().map(|&b| if b == b'N' { b'A' } else { b }).collect();
+            for pos in [0usize, 1, len / 2, len - 1] {
+                for bad in [b'N', b'x', 0x80u8] {
+                    if !sh.mine() {
+                        continue;
+                    }
+                    let mut s = clean.clone();
+                    s[pos] = bad;
+                    ctx.rep.evaluations += 1;
+                    let argv = vec!["case".to_string(), "C11".to_string(), hex(&s), "16".to_string()];
+                    match guard(|| comps[4].1.verif_vectorise_one(&s)) {
+                        Ok(Err(_)) => {
+                            ctx.rep.nontrivial += 1;
+                        }
+                        Ok(Ok(p)) => viol(ctx, "bad-byte-accepted", len, format!("cgr vectorise_one on a record of {len} bases whose byte {pos} is {:?}: returned {} points instead of refusing", bad as char, p.len()), argv),
+                        Err(p) => viol(ctx, "panic", len, format!("cgr vectorise_one on a record of {len} bases whose byte {pos} is {:?}: panicked: {p}", bad as char), argv),
+                    }
+                    nrej += 1;
+                }
+            }
+        }
+        ctx.rep.count("cases.rejection_long", nrej);
+    }
     // a single-letter run long enough for the point to settle on the corner in double precision (54 steps for the
     // corner (S,S), about 1075 for the others), then other bases, then the same letter again
     for &ch in b"ACGTUacgtu" {
@@ -1355,9 +1395,25 @@ pub fn c12(ctx: &mut Ctx) {
     }
     ctx.lap("c12.per_record");
     // long records
+    for (i, &len) in crate::iters::THRESHOLD_LENGTHS.iter().enumerate() {
+        let s = crate::iters::long_input(len, 90 + i as u64);
+        // even and odd k (reverse-complement palindromes exist for even k only)
+        for (k, norm) in [(2usize, true), (3, false), (4, true), (4, false)] {
+            if !sh.mine() || ctx.monitor() {
+                continue;
+            }
+            let mut comp = OligoCgrComputer::new("-".into(), "-".into(), k, 16);
+            comp.set_norm(norm);
+            let mut oligo = OligoComputer::new("-".into(), "-".into(), k);
+            oligo.set_norm(norm);
+            c12_one(ctx, k, 16, norm, &comp, &oligo, &model::canon_index(k), &s);
+            n += 1;
+            ctx.rep.nontrivial += 1;
+        }
+    }
     for (len, seed) in [(4097usize, 1u64), (20_000, 3), (70_000, 4)] {
         let s = crate::iters::long_input(len, seed);
-        for k in [1usize, 3, 5, 7] {
+        for k in [1usize, 2, 3, 4, 5, 6, 7] {
             for norm in [true, false] {
                 if !sh.mine() {
                     continue;
